@@ -189,6 +189,16 @@ Theorem C07_emitted_messages_acceptable : forall (c : config) (honest : nat -> b
 Proof. exact RefineNet.network_emissions. Qed.
 Print Assumptions C07_emitted_messages_acceptable.
 
+(* at most one vote per (round, step) over the whole NETWORK history: an honest member's votes in the global set never
+   conflict, whatever the schedule and whatever Byzantine members do *)
+Theorem C07_network_one_vote_per_slot : forall (c : config) (honest : nat -> bool) (input : nat -> chain),
+  committee_wf c -> c_total c <= 65535 -> (forall k, honest k = true -> input k <> []) ->
+  forall acts s r p x y, RefineNet.all_ok c honest (RefineNet.net0 input) acts -> honest s = true ->
+    In (Spec.V s r p x) (RefineNet.n_votes (RefineNet.nrun c (RefineNet.net0 input) acts)) ->
+    In (Spec.V s r p y) (RefineNet.n_votes (RefineNet.nrun c (RefineNet.net0 input) acts)) -> x = y.
+Proof. exact RefineNet.network_one_vote_per_slot. Qed.
+Print Assumptions C07_network_one_vote_per_slot.
+
 (* non-vacuity: a concrete run (3 members, subject 0 with input [1;2;3]) passes QUALITY, PREPARE, COMMIT and decides *)
 Definition ex_cfg := mkCfg [10; 30; 30] 70 4 2 2000 [2000; 3000; 4500] [700; 900; 1100].
 Definition ex_events : list event :=
